@@ -36,6 +36,7 @@ def check(ctx, cfg):
     r4(ctx, cfg)
     r5(ctx, cfg)
     r6(ctx, cfg)
+    r7(ctx, cfg)
 
 
 def r6(ctx, cfg):
@@ -332,3 +333,93 @@ def r4(ctx, cfg):
         else:
             ok = False
     ctx.ob(R, key, "formula=stake*apr*dt/YEAR*(1-commission)", ok, "calculate_rewards computes %s" % d, fn=f, sample=d)
+
+
+def r7(ctx, cfg):
+    """the decisions around the reward arithmetic, each in the one direction that keeps the property:
+    - update_rewards credits the delegators where time has passed since the last calculation (`last < now`) and the new rewards
+      are not zero - never under the inverse of either test;
+    - share_of_rewards is zero for a validator without stake and `rewards * self.stake / validator.stake` otherwise
+      (the delegator's part of what the validator earned: C15.R4 fixes what the validator earned);
+    - the withdraw address: SetWithdrawAddress stores (sender -> validated address), removing the entry exactly when the two
+      are equal - "pays ... to the delegator's current withdraw address" reads it back (C15.R3)."""
+    from rules import stakes
+    F, P = cfg.facts, cfg.prov
+    R = "C15.R7"
+    key = SK + "update_rewards"
+    f = ctx.need_fn(R, key)
+    if f is not None:
+        ups = stakes.entry_updates(P, F, f)
+        bad = []
+        for u in ups:
+            g = F.fn(u.site[0])
+            cs = [c for e, c in q.dominating_conditions(P, g, u.site[1]) if c[0] == "bool" and not q.is_derived(c)]
+            zs = [c for c in cs if c[1][0] == "is_zero" and contains(c[1][1][0], lambda x: x[0] == "call" and x[1] == SK + "calculate_rewards")]
+            ts = [c for c in cs if c[1][0] == "lt" and any(contains(x, lambda y: y[0] == "field" and y[2] == "last_rewards_calculation") for x in c[1][1])]
+            if any(c[1][2] is not False for c in zs):
+                bad.append("credited only when the new rewards are zero")
+            for c in ts:
+                a0, a1 = c[1][1]
+                last_first = contains(a0, lambda y: y[0] == "field" and y[2] == "last_rewards_calculation")
+                # lt(last, now) must hold  /  lt(now, last) must not
+                if (last_first and c[1][2] is not True) or (not last_first and c[1][2] is not False):
+                    bad.append("credited only when no time has passed since the last calculation")
+        ctx.ob(R, key, "credits-when-time-passed-and-rewards-nonzero", bool(ups) and not bad, "update_rewards: %s" % (bad or "no crediting of STAKES entries found"), fn=f,
+               sample="last < now, !new_rewards.is_zero()")
+    key = "staking::Shares::share_of_rewards"
+    f = ctx.need_fn(R, key)
+    if f is not None:
+        ok = True
+        d = []
+        n_share = 0
+        for val, conds, site in q.value_cases(P, f, 0):
+            v = peel(val)
+            zc = [c[1][2] for e, c in conds if c[0] == "bool" and c[1][0] == "is_zero" and
+                  contains(c[1][1][0], lambda x: x[0] == "field" and x[2] == "stake" and is_param(x[1], "validator_info"))]
+            if v[0] == "call" and v[1] == "cosmwasm_std::Decimal::zero":
+                ok = ok and zc == [True]
+                d.append("zero under is_zero=%s" % zc)
+            else:
+                n_share += 1
+                def is_field(o, p, fld):
+                    o = peel(o)
+                    return o[0] == "field" and o[2] == fld and is_param(o[1], p)
+                shape = v[0] == "call" and v[1].endswith("Div::div") and is_field(v[2][1], "validator_info", "stake") and peel(v[2][0])[0] == "call" and \
+                    peel(v[2][0])[1].endswith("Mul::mul") and \
+                    {("r" if is_param(x, "rewards") else "s" if is_field(x, "self", "stake") else "?") for x in peel(v[2][0])[2]} == {"r", "s"}
+                ok = ok and shape and zc in ([False], [])
+                d.append("%s under is_zero=%s" % (fmt(v)[:80], zc))
+        n_zero = sum(1 for x in d if x.startswith("zero under"))
+        ctx.ob(R, key, "share = rewards * own stake / validator stake (zero without stake)", ok and n_share == 1 and n_zero >= 1, "share_of_rewards yields %s" % d, fn=f,
+               sample="rewards * self.stake / validator_info.stake")
+    key = DK + "set_withdraw_address"
+    f = ctx.need_fn(R, key)
+    if f is not None:
+        WA = ("item", "staking::WITHDRAW_ADDRESS")
+        def eqs(b):
+            return [c[1][2] for e, c in q.dominating_conditions(P, f, b) if c[0] == "bool" and c[1][0] == "eq" and
+                    {("d" if is_param(x, "delegator_addr") else "w" if is_param(x, "withdraw_addr") else "?") for x in c[1][1]} == {"d", "w"}]
+        rm = store_calls(P, f, WA, ("remove",))
+        sv = store_calls(P, f, WA, ("save",))
+        ok = len(rm) == 1 and len(sv) == 1
+        if ok:
+            ra, sa = P.call_args(f, rm[0][1], rm[0][0]), P.call_args(f, sv[0][1], sv[0][0])
+            ok = eqs(rm[0][0]) == [True] and eqs(sv[0][0]) == [False] and is_param(ra[2], "delegator_addr") and is_param(sa[2], "delegator_addr") and is_param(sa[3], "withdraw_addr")
+        ctx.ob(R, key, "stores(delegator -> withdraw address), removes when equal", ok, "set_withdraw_address does not save (delegator_addr -> withdraw_addr) / remove under equality",
+               fn=f, sample="if d == w { remove(d) } else { save(d, w) }")
+        ok = all(_succ_dom(P, f, site[0], "cw_storage_plus::Map::save") or eqs(site[0]) == [True] for site, v in q.success_return_sites(P, f))
+        ctx.ob(R, key, "succeeds-only-after-storing", ok, "set_withdraw_address can succeed without having stored the address", fn=f, sample="Ok after save / remove")
+    ek = "<staking::DistributionKeeper as module::Module>::execute"
+    e = ctx.need_fn(R, ek)
+    if e is not None:
+        cs = [(b, t) for b, t in q.calls(e, DK + "set_withdraw_address")]
+        ok = len(cs) == 1
+        if ok:
+            a = P.call_args(e, cs[0][1], cs[0][0])
+            ok = is_param(a[0], "storage") and is_param(a[1], "sender") and \
+                contains(a[2], lambda x: x[0] == "call" and x[1].endswith("Api::addr_validate") and contains(x[2][1], lambda y: is_param_field(y, "msg", "address"))) and \
+                _arm(P, e, cs[0][0]) == "SetWithdrawAddress"
+            out = q.successes_outside(P, e, lambda conds: q.succeeded(conds, DK + "set_withdraw_address"), only=lambda b: _arm(P, e, b) == "SetWithdrawAddress")
+            ok = ok and not out
+        ctx.ob(R, ek, "SetWithdrawAddress-stores(sender -> validated address)", ok, "the SetWithdrawAddress arm does not store (sender -> addr_validate(address)) before succeeding",
+               fn=e, sample="set_withdraw_address(storage, &sender, &api.addr_validate(&address)?)?")
